@@ -4,10 +4,11 @@ From Coq Require Import List ZArith NArith String.
 Import ListNotations.
 Require Import AvraV.Model.Base AvraV.Model.Ast AvraV.Model.Lines AvraV.Model.Parse AvraV.Model.Passes AvraV.Proofs.CondProofs.
 
-(** A program is a list of block trees ([nodes]): plain lines and
-    .if/.ifdef/.ifndef [.elif]* [.else] .endif blocks, nested to any depth; a plain line is ANY text
-    that is not one of these six directives - valid statements, text that does not parse at all,
-    .macro, .error, ...  ([wf_nodes] says nothing else).  The tree semantics [ex_nodes] is what the
+(** A program is a list of block trees ([nodes]): plain lines,
+    .if/.ifdef/.ifndef [.elif]* [.else] .endif blocks nested to any depth, and macro definitions
+    (.macro line, balanced body text without an end-of-macro line, .endm/.endmacro); a plain line is
+    ANY text that is not one of the six conditional directives - valid statements, text that does not
+    parse at all, .error, ...  ([wf_nodes] says nothing else).  The tree semantics [ex_nodes] is what the
     property asks for: a block evaluates the condition of its head; if it holds, exactly the lines of
     that arm are assembled (recursively) and of the remaining arms nothing but the label, if any, on
     the next arm's own line; otherwise the next arm is looked at in the same way - an .elif is
@@ -17,8 +18,8 @@ Require Import AvraV.Model.Base AvraV.Model.Ast AvraV.Model.Lines AvraV.Model.Pa
     assembly has reached ([line_step] runs the model's own directive handling).
 
     THEOREM: for every well-formed program, every state and every result of the tree semantics
-    (a state or an error value; [None] = a selected line opens a macro definition or ends the file,
-    which the tree semantics does not describe), the line loop of the model - skipping by counting
+    (a state or an error value; [None] = a selected plain line ends the file or opens a macro definition
+    that is not closed as a macro node, which the tree semantics does not describe), the line loop of the model - skipping by counting
     nested conditionals - run on the flattened text returns exactly that result. *)
 Theorem C08_select : forall fuel inc ns st o,
   wf_nodes ns -> ex_nodes fuel inc ns st = Some o ->
